@@ -90,6 +90,91 @@ CHECKS = {
             "(absolute tolerance 1e-9; sound code <= 9e-14, FejerSecond >= 3.9e-3).  Sizes, order and domain are audited by TLC.",
             "Trusted: TLC, expr_eval/mpmath, the discrete cosine-sum lemma (cross-checked numerically), the functional form of the strip map.",
             "DESIGN.md section 5 C01, Appendix G"),
+    "C06": (MC, "TLA+ chunk-algorithm model vs ownership definition with TLC-judged integer observations of three routes; lemma chain and "
+                "exact rational identities in TLC; spec-emitted straight-line Expr program as oracle (Fraction / extended precision) for six routes",
+            "TLC checks the chunked evaluation (NumPy slice semantics, shifted/clipped segment table) against 'every point gets the weight of "
+            "its owner exactly once' for all M <= 6 atoms, N <= 14 points and all 54 257 monotone index tables, judges the same tables observed "
+            "through __call__, generate_weights and compute_weights, and proves the cell-function lemma chain (clip, |a| <= 9/20, nu-map, "
+            "switch symmetry) and sum-to-one / bounds / nucleus values / relabelling exactly on collinear rational geometries that fit 32 bits. "
+            "6300 TLC-emitted rational geometries (orders 1-3, M <= 4, radii override) are replayed through six routes against the spec's "
+            "program in Fractions; 8000 random 3-D geometries (1-9 atoms, any Z incl. undefined radii, nuclei/far points) are checked for "
+            "bounds, sum, nucleus values, route agreement, rigid motions and permutations; Hirshfeld share identity on random tables.",
+            "Trusted: TLC, expr evaluators (cross-checked against mpmath). Bounds/sum for arbitrary real geometries are harness-checked against "
+            "the spec program, not decided by TLC. Not covered: coincident atoms, non-integer orders.",
+            "DESIGN.md section 5 C06"),
+    "C05": (MC, "TLA+ index-loop / sector / preset model over tables generated from the npz files; TLC judges degrees, sizes and indices of "
+                "emitted configurations and of every (preset, element) build; harness checks each shell against TLC-emitted rational factors",
+            "TLC checks the index-table loop against prefix sums for all size sequences, the sector algorithm against its declarative "
+            "definition incl. ties, and for all 17 presets x all tabulated elements (tables read from the npz files at check time) that the "
+            "branch taken matches the table kind, counts fit, and no shell is coarser than tabulated; it judges (degrees, sizes, indices | "
+            "ValueError) of 4560 emitted configurations and of every preset build.  Per shell the harness checks radii, weights w_i r_i^2 W, "
+            "orthogonality via Gram matrices, seed reproducibility, translation, get_shell_grid and factorised monomial integrals.",
+            "Trusted: TLC, table extraction. The rotation matrix is opaque: only orthogonality, reproducibility and dependence on (seed, shell).",
+            "DESIGN.md section 5 C05"),
+    "C07": (MC, "TLA+ fan-out normalisation emitted and replayed (convenience constructor vs by-hand construction, bit for bit); store-flag "
+                "observer histories model-checked and replayed; TLC-judged index tables; end-to-end obligations from the preset tables",
+            "TLC enumerates the option space of from_size / from_preset / from_pruned (rgrid one|list|dict|None, preset str|list|dict, radius "
+            "float|list, int or per-atom sector lists, rotate, store, Becke or callable weights) into lists of atomic constructions, checks "
+            "totality, and model-checks all observer histories of length <= 4 under both store settings.  Every combination is built through "
+            "the convenience constructor and by hand and compared bitwise (points, weights, atweights, aim_weights, indices, atomic grids); "
+            "integer observables are judged by TLC.  End-to-end: 17 presets x 12 molecule templates x 10 exponent patterns with rgrid=None "
+            "(84 constructible pairs, worst charge error 2.5e-3 against the 1 % bound).",
+            "Trusted: TLC. The end-to-end charge clause is exploration-level and evaluated with rgrid=None only (presets that prescribe a radial "
+            "size reject the default grid by design).",
+            "DESIGN.md section 5 C07"),
+    "C08": (MC, "TLC exact identities on a rational (Pythagorean) angle lattice from the defining formula (Harmonics.tla) + spec-derived Expr "
+                "trees (derivatives by the symbolic D) replayed in 50-digit arithmetic",
+            "TLC proves on a 53-angle lattice, from the defining formula of Y_lm, the addition theorem, parity, pole values, derivative-route "
+            "agreement (l <= 6), exact orthonormality (l <= 4), the Horton row order (l <= 80) and Cart(Sph(p)) = p, and emits trees for Y, both "
+            "angular derivatives and the solid harmonics for l <= 12.  The three harmonic generators, solid_harmonics and convert_cart_to_sph "
+            "are compared with the trees at lattice angles shifted by 2 pi k, random, near-pole, pole and reflected angles; for 12 < l <= 80 "
+            "both implementations, the addition theorem and a calibrated independent evaluator (vf/ylm.py) are compared.",
+            "Trusted: TLC, expr_eval/mpmath. Tolerance 1e-9 in units of sqrt((2l+1)/2pi) (measured <= 2.8e-13).",
+            "DESIGN.md section 5 C08"),
+    "C02": (EX, "TLC catalogue laws and obligation accounting (AngularCatalogue.tla); complete numeric discharge of every (file, l, m) "
+                "obligation with an evaluator calibrated against Harmonics.tla on every run",
+            "The catalogue of shipped grids is extracted from /repo; TLC checks catalogue consistency and owns the obligation set "
+            "{(method, degree, l, m)} and, in a second run, judges the accounting (every required obligation discharged, attributes, counts, "
+            "unit norm).  The harness builds every AngularGrid and evaluates sum_i w_i Y_lm(p_i) for all l <= degree (thorough: all 450 grids, "
+            "9.1e6 obligations, exhaustive; quick: 165 grids incl. all Lebedev and Ahrens-Beylkin).",
+            "TLC does not decide the floating-point clause. Tolerance 1e-8 (sound files <= 3.3e-12, defective files >= 5.4e-5).",
+            "DESIGN.md section 5 C02"),
+    "C09": (EX, "TLC band-limit laws over all degree sequences (BandLimit.tla), TLC-judged integer observables (basis size, retained prefix), "
+                "seeded numeric discharge of the statement's obligations",
+            "TLC checks admissible-subset-of-retained, exactness of products and prefix laws for every sequence of supported degrees <= 50 of "
+            "all four methods and judges the number of splines and the retained prefix per shell recorded from the library.  On 60 (quick) / "
+            "1500 (thorough) seeded configurations (methods, degree patterns, r = 0 nodes, centres, rotation seeds) band-limited functions are "
+            "built with the calibrated evaluator and every clause of the statement is discharged (angular integrals, spline knots, interpolant "
+            "at grid and arbitrary points, spherical/Cartesian/radial derivatives incl. finite differences of the interpolant, spherical "
+            "average, molecular interpolation).",
+            "TLC does not decide the numeric clauses. Tolerance 1e-9*max|f| (measured <= 1.5e-13), 1e-6 for finite differences (<= 5e-10).",
+            "DESIGN.md section 5 C09"),
+    "C17": (MC, "TLA+ differential algebra {erf, Gaussian} over Q[r, 1/r] checked by TLC (potential derived on a rational lattice, documented "
+                "formulas judged) + spec-emitted expression trees replayed at 50 digits + TLC-judged parameter lookups",
+            "TLC derives, for symbolic r and 8 rational exponents, the potential of the documented s- and p-type densities from the radial "
+            "Poisson equation in the algebra with D erf = 2E, D E = -2 alpha r E, proves uniqueness, regularity at 0, total charge and the "
+            "unnormalised multiples, accepts the code's s-type formula and refutes the code's p-type formula.  coulomb_gaussian_s/p and "
+            "coulomb_potential are compared with the emitted trees for alpha in 1e-3..1e4 and ~100 radii incl. 0, both sides of the small-r "
+            "switch and 1e8; every load_atomic_gaussian_params lookup is judged by TLC.",
+            "Trusted: TLC, expr_eval/mpmath (trees validated against 40-digit quadrature of the Coulomb integral). rtol 1e-12.",
+            "DESIGN.md section 5 C17, Appendix E.1"),
+    "C15": (EX, "TLC: Bell-polynomial / Faa di Bruno polynomial identities and complete enumeration of a manufactured problem lattice with "
+                "spec-computed right-hand sides and exact rational oracles (Ode.tla); replay through all transform classes",
+            "TLC proves the Bell recurrences equal the partition definition and the closed forms hard-coded in ode.py, Faa di Bruno and the "
+            "coefficient transformation as exact polynomial identities, and soundness of 1824 manufactured problems (orders 1-3, polynomial "
+            "solutions and coefficients, initial/boundary data) with 117 admissible transform instances.  The solvers (DOP853, RK45, Radau, "
+            "solve_bvp) are run directly and through the assigned transformations and compared with the exact polynomials and derivatives.",
+            "Solver accuracy is an exploration-level claim: acceptance 1e-6 (direct, worst 1.9e-9) and 1e-4 (through transforms, worst 8.5e-8).",
+            "DESIGN.md section 5 C15"),
+    "C16": (EX, "TLC-derived channel potentials in the {erf, Gaussian} Laurent algebra and an enumerated, admissibility-checked configuration "
+                "space (Poisson.tla); replay of the BVP / IVP / robust / Laplacian solvers against spec-emitted trees",
+            "TLC derives the potentials of pure-l Gaussian channel densities (l <= 2) from the radial channel equation, checks harmonicity, "
+            "linearity and regularity, and enumerates 600 cases of 10 kinds inside the resolution envelope.  Each case is solved with "
+            "solve_poisson_bvp / ivp / robust or interpolate_laplacian and compared with the oracle at 30 points per atom; linearity and the "
+            "exact-cancellation case of the robust solver are checked to 2e-5 and 1e-10.",
+            "Exploration level: most clauses have ~1.5 orders of magnitude between the solvers' own accuracy and the acceptance threshold "
+            "(only linearity and robust-exact have > 3); every tested defect moves results by >= 1e-1.",
+            "DESIGN.md section 5 C16"),
 }
 
 NOT_YET = {}
